@@ -100,7 +100,8 @@ REDIRECTS += ["http://a.com/%49ndex.html", "http://a.com/x/%44efault.aspx", "htt
 # what infer_redirection reads on the raw string, and canonicalize_url rewrites: a control character inside a key, '&amp;' in front of it, dot segments
 # inside a cache path
 REDIRECTS += ["http://a.com/?u\x01rl=http%3A%2F%2Fb.c%2F", "http://a.com/?x=1&amp;url=http%3A%2F%2Fb.c%2F", "https://amp-a-com.cdn.ampproject.org/v/s/../s/a.com/y",
-              "https://amp-a-com.cdn.ampproject.org/v/./s/a.com/y", "https://amp-a-com.cdn.ampproject.org/v/s/a.com/x/../y", "\x85http://a.com/p?u=/x"]
+              "https://amp-a-com.cdn.ampproject.org/v/./s/a.com/y", "https://amp-a-com.cdn.ampproject.org/v/s/a.com/x/../y", "\x85http://a.com/p?u=/x",
+              "https://amp-a-com.cdn.ampproject.org/v/s/a.com:8080/y"]
 # pairs that are easy to confuse: when they have the same canonical / normalized form they must agree on the next scheme too
 PAIRS = [("http://a.com/?%75rl=http://b.com/x", "http://a.com/?u\x01rl=http://b.com/x"), ("http://a.com/%49ndex.html", "http://a.com/%4\x019ndex.html"),
          ("http://a.com/x?Q=http://b.com", "http://b.com"), ("http://a.com/x?q=http://b.com", "http://a.com/x?Q=http://b.com"), ("a.com?ref=%46b", "a.com?ref=Fb"),
@@ -153,8 +154,12 @@ def main():
         toks = [t for t in R.TOKENS if t not in R.EXCLUDE[comp]]
         if a.tier == "quick" and comp != "path":
             toks = toks[::2] + ["%2F", "%25", "%3D", "%26"]
+        # thorough: sequences of three tokens in the path and in the query (where the three schemes do most of their work)
         for s in R.component_strings(comp, maxlen, toks):
             urls.extend(hot_urls(comp, s))
+        if a.tier == "thorough" and comp in ("path", "query"):
+            for combo in itertools.product(toks, repeat=3):
+                urls.append(hot_urls(comp, "".join(combo))[0])
     for q in QUERY_EXTRA:
         for h in ["a.com"] + HOSTS_EXTRA:
             urls.append("http://%s/p?%s" % (h, q))
@@ -164,6 +169,16 @@ def main():
             urls.append("http://" + h + tail)
             urls.append(h + tail)
     urls.extend(REDIRECTS)
+    if a.tier == "thorough":
+        # every extra host under every extra query, tail, wrap and scheme spelling; every redirection hint on every extra host
+        for h in HOSTS_EXTRA:
+            for q in QUERY_EXTRA:
+                for tail in ("/", "/index.html", "/a/../b/", "/%7Eu"):
+                    for pre, post in WRAPS[:3]:
+                        urls.append(pre + "//" + h + tail + "?" + q + post)
+            for r in REDIRECTS:
+                if "a.com" in r:
+                    urls.append(r.replace("a.com", h, 1))
     # explicit default ports under every scheme spelling (canonicalize_url assumes https for a scheme-less url, normalize_url http)
     for sch in ("", "//", "http://", "https://", "HTTPS://"):
         for port in (":80", ":443", ":0", ":8080"):
@@ -187,8 +202,8 @@ def main():
     col.sample({"url": "http://a.com/?%62=1&a=2", "options": OPTSETS[0]})
     col.sample({"collision_class_by": "canonicalize_url", "members": ["http://a.com/p?%61=1", "http://a.com/p?a=1"]})
     col.exhaustive = True
-    col.bounds = {"hot_component_token_sequences": maxlen, "urls": len(urls), "option_sets": len(OPTSETS)}
-    col.rule = ("URLs of the C01 grammar (one hot component, token sequences <= %d; quick: half of the alphabet plus the escaped delimiters) plus query / host "
+    col.bounds = {"hot_component_token_sequences": maxlen, "hot_path_and_query_token_sequences": 3 if a.tier == "thorough" else maxlen, "urls": len(urls), "option_sets": len(OPTSETS)}
+    col.rule = ("URLs of the C01 grammar (one hot component, token sequences <= %d - thorough: <= 3 in path and query; quick: half of the alphabet plus the escaped delimiters) plus query / host "
                 "families that exercise sorting, filtering and host heuristics; x platform_aware x strip_suffix x quoted. Clauses: "
                 "normalize(canonicalize(u)) == normalize(u), fingerprint(canonicalize(u)) == fingerprint(u), and every collision class (inputs grouped by "
                 "canonical form, by normalized form) is constant under the next scheme. distinct_nontrivial = parseable URLs + collision classes with >= 2 members"
